@@ -324,6 +324,17 @@ def run_unit(unit, progress):
         def normalise(x):
             return x
 
+        fallback = hops == 1 and rnd.random() < 0.35
+        missing = set(j for j in range(nel) if rnd.random() < 0.5)
+
+        @A()
+        def lookup_miss(x):
+            raise LookupError("miss")
+
+        @A()
+        def fetch():
+            return (yield harness.HItem(rt, 0, "k%d" % next(ctr), ("c14", next(ctr))))
+
         @A()
         def key(x):
             if presync:
@@ -331,6 +342,16 @@ def run_unit(unit, progress):
                 x = normalise(x)
                 c["keys_making_a_sync_call_first"] = c.get("keys_making_a_sync_call_first", 0) + 1
             idx = next(call_ctr)
+            if blocking and fallback and idx not in easy:
+                # a first source that fails at once for some elements (a cache miss raised as an exception), caught,
+                # then the real request made through another task: all real requests still belong to ONE round
+                if idx in missing:
+                    try:
+                        yield lookup_miss.asynq(x)
+                    except LookupError:
+                        c["keys_falling_back_after_a_failed_first_source"] = c.get("keys_falling_back_after_a_failed_first_source", 0) + 1
+                yield fetch.asynq()
+                return twin(x)
             if blocking and idx not in easy:
                 # (the key of some elements answers at once - a None element, a cached row - while the others
                 # need one, two or three requests one after another)
